@@ -74,7 +74,7 @@ package tan
 //@ func (d *db) write [C04 C10]
 //@ noframe
 //@ nobounds
-//@ modifies gUnsynced, gWriteFailed, gDataSynced
+//@ modifies gUnsynced, gWriteFailed, gDataSynced, entries(d.mu.nodeStates.states)
 //@ ghostset gUnsynced := old(gUnsynced) || (result1 == nil && result0)
 //@ free requires d.mu.nodeStates != nil && d.mu.nodeStates.states != nil
 //@ ensures result1 == nil && (len(u.EntriesToSave) > 0 || u.Snapshot.Index != 0 || u.State.Term != ite(old(mk(raftio.NodeInfo, u.ShardID, u.ReplicaID) in d.mu.nodeStates.states), old(d.mu.nodeStates.states[mk(raftio.NodeInfo, u.ShardID, u.ReplicaID)].Term), 0) || u.State.Vote != ite(old(mk(raftio.NodeInfo, u.ShardID, u.ReplicaID) in d.mu.nodeStates.states), old(d.mu.nodeStates.states[mk(raftio.NodeInfo, u.ShardID, u.ReplicaID)].Vote), 0)) ==> result0
